@@ -238,4 +238,18 @@ theorem c05_one_pass_per_request {rl sd : List Bool} {s : St} (h : Reachable rl 
   have hi := inv_reach h
   exact ⟨hi.handed.symm, by have := hi.issued; simp only [waiting] at this; omega⟩
 
+/-- **A trigger of a ReloadSender is taken** (no request is lost while running): in every state in which the
+supervisor runs a reload manager (some runnable is Reloadable), runnable `j` is a ReloadSender — Reloadable itself or
+not — and its listener is neither holding an earlier trigger nor gone, a pending send on `j`'s trigger channel can be
+received: the listener's receive is enabled.  (The trace oracle checks the consequence at rest: no trigger intent is
+left undelivered.) -/
+theorem c05_trigger_taken (s : St) (j : Nat) (hs : s.sender.getD j false = true) (hm : s.reloadable.any id = true)
+    (hfree : s.holding.contains j = false) (hlive : s.exitedL.contains j = false) (hpend : s.intents.contains j = true) :
+    (step s (.trigRecv j)).isSome = true := by
+  simp only [List.contains_eq_mem, decide_eq_false_iff_not, decide_eq_true_eq, List.getD_eq_getElem?_getD] at hs hfree hlive hpend
+  simp [step, St.listening, hs, hm, hfree, hlive, hpend]
+
+/-- the listener exists whether or not the sender is itself Reloadable: a sender-only runnable next to a Reloadable one -/
+example : (step { (initSt [false, true] [true, false]) with intents := [0] } (.trigRecv 0)).isSome = true := by decide
+
 end GoSup.Props.C05
